@@ -7,7 +7,7 @@ use std::cell::UnsafeCell;
 use std::marker::PhantomData;
 use std::ops::{Deref, DerefMut};
 
-pub const MCAP: usize = 3;
+pub const MCAP: usize = 8;
 /// First bucket visited by `iter` / `iter_mut`.
 pub static mut ROTATION: usize = 0;
 
@@ -26,7 +26,7 @@ impl<K, V> std::fmt::Debug for DashMap<K, V> {
 }
 impl<K: PartialEq, V> Default for DashMap<K, V> {
     fn default() -> Self {
-        Self { items: UnsafeCell::new(Inner { s: [None, None, None] }) }
+        Self { items: UnsafeCell::new(Inner { s: [None, None, None, None, None, None, None, None] }) }
     }
 }
 pub struct Ref<'a, K, V> {
